@@ -1,5 +1,5 @@
 (* Program-level consequences of InterpSemProofs.all_agree: the whole of run_shadow_tests (constants, then every
-   shadow block on the stack the previous ones left behind) against the reference semantics, test by test. *)
+   shadow block, each a block of its own on the stack of constants) against the reference semantics, test by test. *)
 From Coq Require Import ZArith NArith List Bool Lia.
 From NV Require Import Lang.Ast Lang.Ref Back.InterpSem Back.InterpLemmas Driver.ShadowGate Back.NamesApart Back.InterpSemProofs
                        Back.NatSem Back.Agree.
@@ -50,6 +50,9 @@ Variable gn : list ident.
 Hypothesis Hfns : forall d, In d fns -> fn_ok gn d = true.
 
 (* ---- top-level constants *)
+Lemma locals_ok_nil : locals_ok gn [] [].
+Proof. intros x []. Qed.
+
 Lemma globals_agree fuel base : forall gs genv0 out asr,
   incl (names genv0) gn -> incl (map (fun g => fst (fst g)) gs) gn -> forallb (fun g => expr_plain (snd g)) gs = true ->
   match eval_globals fns fuel gs genv0 out with
@@ -61,9 +64,7 @@ Proof.
   induction gs as [|[[x t] e] r IH]; intros genv0 out asr G0 GS PL; simpl.
   - split; [exact G0|]. exists []. rewrite app_nil_r. reflexivity.
   - simpl in PL. apply andb_true_iff in PL. destruct PL as [PL1 PL2].
-    assert (IV : inv gn [] [] [] []).
-    { constructor; simpl; auto; try constructor; intros; contradiction. }
-    pose proof (proj1 (all_agree fns gn Hfns fuel) genv0 base [] [] [] [] e out asr G0 IV PL1) as H. simpl in H.
+    pose proof (proj1 (all_agree fns gn Hfns fuel) genv0 base [] [] e out asr G0 locals_ok_nil PL1) as H. simpl in H.
     destruct (eval_expr fns fuel genv0 [] e out) as [v out1|f out1| |]; simpl; try exact I.
     destruct H as [v' [w' [E [-> [l [Hl ->]]]]]]. unfold mkw in E. unfold mkw. rewrite E. simpl.
     assert (G1 : incl (names ((x, (false, v)) :: genv0)) gn).
@@ -75,36 +76,29 @@ Proof.
     rewrite E2. rewrite app_assoc. reflexivity.
 Qed.
 
-(* ---- the shadow blocks, one after the other on the same stack *)
+(* ---- the shadow blocks, one after the other; each is a block: when it ends the stack is the constants again *)
 Lemma run_tests_agree fuel genv base : incl (names genv) gn ->
-  forall shs junk, (forall x, In x (names junk) -> ~ In x gn) ->
-  forallb (shadow_ok gn) shs = true ->
-  forall rs sk stk, run_tests fns fuel shs (junk ++ genv ++ base) = TDone rs sk stk -> agree_run fns fuel genv shs rs.
+  forall shs, forallb (shadow_ok gn) shs = true ->
+  forall rs sk stk, run_tests fns fuel shs (genv ++ base) = TDone rs sk stk -> agree_run fns fuel genv shs rs.
 Proof.
-  intros G. induction shs as [|sh r IH]; intros junk HJ OK rs sk stk H; simpl in *.
+  intros G. induction shs as [|sh r IH]; intros OK rs sk stk H; simpl in *.
   - inversion H. reflexivity.
   - apply andb_true_iff in OK. destruct OK as [OK1 OK2].
     destruct (sh_skip sh).
-    + destruct (run_tests fns fuel r (junk ++ genv ++ base)) as [rs1 sk1 stk1| | |] eqn:E; try discriminate.
+    + destruct (run_tests fns fuel r (genv ++ base)) as [rs1 sk1 stk1| | |] eqn:E; try discriminate.
       inversion H; subst. eapply IH; eauto.
-    + unfold shadow_ok in OK1. apply andb_true_iff in OK1. destruct OK1 as [CK SP].
-      destruct (chk gn [] (sh_body sh)) as [bb|] eqn:C1; [|discriminate].
-      assert (IV : inv gn [] junk [] []).
-      { constructor; simpl; auto; try constructor; try (intros; contradiction).
-        intros x Hx. rewrite app_nil_r in Hx. apply HJ. exact Hx. }
-      pose proof (proj1 (proj2 (all_agree fns gn Hfns fuel)) genv base [] bb junk [] [] (sh_body sh) [] [] G IV C1 SP) as A.
+    + unfold shadow_ok in OK1. apply andb_true_iff in OK1. destruct OK1 as [BK SP].
+      pose proof (proj1 (proj2 (all_agree fns gn Hfns fuel)) genv base [] [] (sh_body sh) [] [] G locals_ok_nil BK SP) as A.
       unfold ref_test. unfold fresh_world in H. unfold mkw in A. simpl in A.
-      destruct (iexec fns fuel (sh_body sh) {| w_stk := junk ++ genv ++ base; w_out := []; w_asr := [] |}) as [c w| | |] eqn:EI; try discriminate.
-      destruct (run_tests fns fuel r (w_stk w)) as [rs1 sk1 stk1| | |] eqn:E; try discriminate.
+      destruct (iexec fns fuel (sh_body sh) {| w_stk := genv ++ base; w_out := []; w_asr := [] |}) as [c w| | |] eqn:EI; try discriminate.
+      destruct (run_tests fns fuel r (truncate (length (genv ++ base)) (w_stk w))) as [rs1 sk1 stk1| | |] eqn:E; try discriminate.
       inversion H; subst. clear H.
       destruct (exec_stmt fns fuel genv [] (sh_body sh) []) as [[c1 en1] out1|f out1| |].
-      * simpl in A. destruct A as [c' [w' [EW [Hc [own' [l [Hl [Hw Hp]]]]]]]]. inversion EW; subst. simpl in *.
+      * simpl in A. destruct A as [c' [w' [EW [Hc [l [Hl [Hw Hp]]]]]]]. inversion EW; subst. simpl in *.
         split.
         -- split; [reflexivity|]. simpl. split; [reflexivity|]. split; [exact Hl|].
            unfold test_passed, fail_count. simpl. rewrite (alltrue_passed _ Hl). reflexivity.
-        -- destruct Hp as [pre [A0 [Q1 [Q2 [Q3 [Q4 [Q5 Q6]]]]]]].
-           eapply IH with (junk := own'); [|exact OK2|exact E].
-           intros x Hx. rewrite Q4 in Hx. apply in_app_or in Hx. destruct Hx as [Hx|Hx]; [apply Q5; exact Hx|apply HJ; exact Hx].
+        -- rewrite truncate_app in E. eapply IH; [exact OK2|exact E].
       * split; [|exact I]. split; [reflexivity|]. destruct f; try exact I. simpl in A.
         unfold test_passed, fail_count. simpl. apply failed_not_passed. apply (A c w eq_refl).
       * split; [|exact I]. split; [reflexivity|exact I].
@@ -113,31 +107,22 @@ Qed.
 
 (* when the reference passes every executed test, the evaluator terminates (with the same fuel) *)
 Lemma run_tests_total fuel genv base : incl (names genv) gn ->
-  forall shs junk, (forall x, In x (names junk) -> ~ In x gn) ->
-  forallb (shadow_ok gn) shs = true ->
+  forall shs, forallb (shadow_ok gn) shs = true ->
   (forall sh, In sh shs -> sh_skip sh = false -> exists r out, ref_test fns fuel genv (sh_body sh) = Ok r out) ->
-  exists rs sk stk, run_tests fns fuel shs (junk ++ genv ++ base) = TDone rs sk stk.
+  exists rs sk stk, run_tests fns fuel shs (genv ++ base) = TDone rs sk stk.
 Proof.
-  intros G. induction shs as [|sh r IH]; intros junk HJ OK RO; simpl in *.
+  intros G. induction shs as [|sh r IH]; intros OK RO; simpl in *.
   - eexists _, _, _. reflexivity.
   - apply andb_true_iff in OK. destruct OK as [OK1 OK2].
     destruct (sh_skip sh) eqn:SK.
-    + destruct (IH junk HJ OK2 (fun s Hs => RO s (or_intror Hs))) as [rs [sk [stk E]]]. rewrite E. eexists _, _, _. reflexivity.
-    + unfold shadow_ok in OK1. apply andb_true_iff in OK1. destruct OK1 as [CK SP].
-      destruct (chk gn [] (sh_body sh)) as [bb|] eqn:C1; [|discriminate].
-      assert (IV : inv gn [] junk [] []).
-      { constructor; simpl; auto; try constructor; try (intros; contradiction).
-        intros x Hx. rewrite app_nil_r in Hx. apply HJ. exact Hx. }
-      pose proof (proj1 (proj2 (all_agree fns gn Hfns fuel)) genv base [] bb junk [] [] (sh_body sh) [] [] G IV C1 SP) as A.
+    + destruct (IH OK2 (fun s Hs => RO s (or_intror Hs))) as [rs [sk [stk E]]]. rewrite E. eexists _, _, _. reflexivity.
+    + unfold shadow_ok in OK1. apply andb_true_iff in OK1. destruct OK1 as [BK SP].
+      pose proof (proj1 (proj2 (all_agree fns gn Hfns fuel)) genv base [] [] (sh_body sh) [] [] G locals_ok_nil BK SP) as A.
       destruct (RO sh (or_introl eq_refl) SK) as [[c1 en1] [out1 RE]]. unfold ref_test in RE. rewrite RE in A.
-      simpl in A. destruct A as [c' [w' [EW [Hc [own' [l [Hl [Hw Hp]]]]]]]]. unfold fresh_world. unfold mkw in EW. simpl in EW. rewrite EW.
-      subst w'. simpl.
-      destruct Hp as [pre [A0 [Q1 [Q2 [Q3 [Q4 [Q5 Q6]]]]]]].
-      destruct (IH own') as [rs [sk [stk E]]].
-      * intros x Hx. rewrite Q4 in Hx. apply in_app_or in Hx. destruct Hx as [Hx|Hx]; [apply Q5; exact Hx|apply HJ; exact Hx].
-      * exact OK2.
-      * intros s Hs. apply RO. right. exact Hs.
-      * rewrite E. eexists _, _, _. reflexivity.
+      simpl in A. destruct A as [c' [w' [EW [Hc [l [Hl [Hw Hp]]]]]]]. unfold fresh_world. unfold mkw in EW. simpl in EW. rewrite EW.
+      subst w'. simpl. rewrite truncate_app.
+      destruct (IH OK2 (fun s Hs => RO s (or_intror Hs))) as [rs [sk [stk E]]].
+      rewrite E. eexists _, _, _. reflexivity.
 Qed.
 End Run.
 
@@ -162,7 +147,7 @@ Proof.
   pose proof (globals_agree (pfns (sp_prog sp)) (gnames (sp_prog sp)) HF fuel base (pglobals (sp_prog sp)) [] [] []
                 (fun x H => match H with end) (fun x H => H) HG) as GA.
   rewrite GE in GA. destruct GA as [GI [l E]]. unfold fresh_world in RI. unfold mkw in E. simpl in E. rewrite E in RI. simpl in RI.
-  eapply run_tests_agree with (junk := []); eauto; try (intros x []); try (simpl; intros x []).
+  eapply run_tests_agree; eauto.
 Qed.
 
 Theorem interp_total_when_ref_passes fuel sp base genv gout :
@@ -176,7 +161,7 @@ Proof.
   pose proof (globals_agree (pfns (sp_prog sp)) (gnames (sp_prog sp)) HF fuel base (pglobals (sp_prog sp)) [] [] []
                 (fun x H => match H with end) (fun x H => H) HG) as GA.
   rewrite GE in GA. destruct GA as [GI [l E]]. unfold fresh_world. unfold mkw in E. simpl in E. rewrite E. simpl.
-  eapply run_tests_total with (junk := []); eauto; try (intros x []); try (simpl; intros x []).
+  eapply run_tests_total; eauto.
 Qed.
 
 (* ==================================================================== pass at compile time => pass at run time *)
